@@ -299,7 +299,55 @@ func (e *Exec) timeDiv(ns value, c int64) value {
 		return q
 	}
 	x := ns.(symBV)
-	return symBV{e.divTerm(x.t, c), 64}
+	return e.floorDiv(x.t, c)
+}
+
+// floorDiv computes floor(x / c) for c > 0. When x is known to be base*mul (time arithmetic in
+// whole ms / s), the division is carried out on the factorisation, exactly, under the recorded
+// no-overflow range assumption.
+func (e *Exec) floorDiv(x string, c int64) value {
+	if st, ok := e.scaled[x]; ok && st.mul > 1 {
+		g := gcd64(st.mul, c)
+		if g > 1 {
+			e.assumeTimeRange(st.base, st.mul)
+			if st.mul%c == 0 {
+				k := st.mul / c
+				if k == 1 {
+					return e.rescale(st.base)
+				}
+				t := "(bvmul " + bvConst(k, 64) + " " + st.base + ")"
+				if e.scaled == nil {
+					e.scaled = map[string]scaledTerm{}
+				}
+				e.scaled[t] = scaledTerm{base: st.base, mul: k}
+				return symBV{t, 64}
+			}
+			if c%st.mul == 0 {
+				// floor(base*mul / c) = floor(base / (c/mul))
+				return e.floorDiv(st.base, c/st.mul)
+			}
+		}
+	}
+	if c <= 1000 {
+		// small constant: real signed division with floor correction
+		q := "(bvsdiv " + x + " " + bvConst(c, 64) + ")"
+		r := "(bvsrem " + x + " " + bvConst(c, 64) + ")"
+		return symBV{"(ite (bvslt " + r + " " + bvConst(0, 64) + ") (bvsub " + q + " " + bvConst(1, 64) + ") " + q + ")", 64}
+	}
+	return symBV{e.divTerm(x, c), 64}
+}
+
+func (e *Exec) rescale(base string) value {
+	return symBV{base, 64}
+}
+
+func (e *Exec) assumeTimeRange(base string, mul int64) {
+	lim := int64(1) << 62 / mul
+	e.Stats.Assumptions["time arithmetic: instants and durations are within +-2^62 ns so that ms/s/ns scaling does not overflow (paths outside are not explored)"] = true
+	c := "(and (bvslt " + base + " " + bvConst(lim, 64) + ") (bvsgt " + base + " " + bvConst(-lim, 64) + "))"
+	if !e.decide(c) {
+		panic(abortPath{why: "time value outside modelled range", kind: "assume"})
+	}
 }
 
 func (e *Exec) divTerm(x string, c int64) string {
